@@ -4,7 +4,8 @@
 (* The space (DESIGN.md 5, C02): V1/V2 x shift 0..3 x per file {method none|zlib|bzip2} x          *)
 (* {plain|enc|fix} x 10 length classes relative to the sector size x 4 content classes x           *)
 (* (direction 2 only: unit choice auto|single|sectored, hash table size tight|roomy, deleted       *)
-(* markers 0..2, hi-block table, 512 bytes of pre-archive data).                                   *)
+(* markers 0..2, hi-block table, 512/1024 bytes of pre-archive data without/with a user data        *)
+(* header, a same-name entry with another locale in front of a neutral one).                       *)
 (* Files are numbered consecutively over the whole run; the triple (method, enc, length class) of *)
 (* file number q is the mixed-radix expansion of q + seed-offset, so every 90 consecutive files   *)
 (* cover the full product; the remaining dimensions are rotated with co-prime strides.  The seed  *)
@@ -48,7 +49,8 @@ FileOf(dir, q, slot, arch, shift) ==
                  ELSE Nth(NamePool, arch * 5 + slot + Seed),       \* distinct within an archive (slot < 11)
         meth |-> meth, enc |-> enc, lc |-> lc,
         cc   |-> Nth(Contents, qq + (qq \div 90) + arch),
-        unit |-> unit ]
+        unit |-> unit,
+        crc  |-> dir = 2 /\ (qq \div 5) % 3 = 0 ]              \* direction 2: sector checksums (effective for sectored COMPRESS files)
 
 ArchiveOf(dir, arch, q0) ==
   LET shift == (arch \div 2) % 4
@@ -56,10 +58,13 @@ ArchiveOf(dir, arch, q0) ==
       ver   == arch % 2
   IN  [ id    |-> arch, dir |-> dir, ver |-> ver, shift |-> shift,
         \* direction 2 only (the reference writer's free choices)
+        crc   |-> (arch \div 7) % 3 = 1,                          \* direction 1: ArchiveBuilder::generate_crcs(true)
         roomy |-> (arch \div 8) % 2 = 0,
         ndel  |-> (arch \div 3) % 3,
         hibt  |-> ver = 1 /\ (arch \div 4) % 2 = 0,
-        prefix |-> IF (arch \div 5) % 3 = 1 THEN 512 ELSE 0,
+        prefix |-> Nth(<<0, 512, 1024, 0>>, arch \div 5),          \* bytes before the MPQ header
+        userdata |-> (arch \div 5) % 4 = 2,                      \* ... starting with a user data header 'MPQ\x1B'
+        twin  |-> (arch \div 3) % 4 = 1,                          \* a second entry for file 1 with locale 0x409, earlier in the probe chain
         listfile |-> Nth(<<"zlib", "none", "none">>, arch),
         files |-> [slot \in 1..nf |-> FileOf(dir, q0 + slot - 1, slot - 1, arch, shift)] ]
 
